@@ -35,6 +35,8 @@ def families(tier):
     add("abc", D["abc"], 3, 5)
     add("ab_p_c", D["ab_p_c"], 3, 4)  # pull-based merger fed by two time components
     add("a0_a_p_b_rev", D["a0_a_p_b_rev"], 0, 4)
+    add("a_p_two_outputs_c", topos.PULL_DIAMONDS["a_p_two_outputs_c"], 3, 5)
+    add("a_p_diamond_c", topos.PULL_DIAMONDS["a_p_diamond_c"], 3, 4)
     add("cba_listed", D["cba_listed"], 0, 5)
     add("fan_in", D["fan_in"], 0, 5)
     add("fan_out", D["fan_out"], 3, 5)
